@@ -214,16 +214,25 @@ def excess(seg, z, res, tstar):
 
 
 def dedup_suspect(calls, tstar, atol, rtol):
-    """is t* (the better point found by sampling) a real root in [0,1] of the
-    polynomial handed to np.roots, while two of the surviving roots are isclose?"""
+    """was t* (the better point found by sampling) a real root in [0,1] of the polynomial handed to np.roots
+    that passed the filters and was then removed by the pair-index / root-index confusion of the
+    de-duplication loop, although no surviving root is close to it?"""
     if tstar is None:
         return False
+    close = lambda a, b: abs(a - b) < atol + rtol * abs(b)
     for coeffs, roots in calls:
-        rs = [r.real for r in roots if abs(r.imag - 0) < atol + rtol * 0]
+        rs = [r.real for r in roots if close(r.imag, 0)]
         rs = [r for r in rs if 0 <= r <= 1]
-        close = any(abs(rs[i] - rs[j]) < atol + rtol * abs(rs[j]) for i in range(len(rs)) for j in range(i + 1, len(rs)))
-        if close and len(rs) >= 3 and any(abs(r - tstar) < 1e-5 for r in rs):
-            return True
+        dup, idx = set(), 0
+        for i in range(len(rs)):
+            for j in range(i + 1, len(rs)):
+                if close(rs[i], rs[j]):
+                    dup.add(idx)
+                idx += 1
+        kept = [r for k, r in enumerate(rs) if k not in dup]
+        for k, r in enumerate(rs):
+            if k in dup and abs(r - tstar) < 1e-5 and not any(close(r, q) or close(q, r) for q in kept):
+                return True
     return False
 
 
@@ -279,7 +288,7 @@ def run(rep, tier, seed, replay=None):
         info = common.std_static(rep, 'C13', GEN_GROUPS, AGREE, tmp)
         expected_untranslated = {'gen_bezier_real_minmax_4'}
         changed = bool(info['agree_failed']) or bool(set(info['untranslated']) - expected_untranslated)
-        n = 600 if tier == 'quick' else 6000
+        n = 600 if tier == 'quick' else 20000
         if changed: n *= 3
         todo = []        # ('seg', kind, data, z, mode) | ('path', [(kind, data)...], z, mode)
         cx = lambda h: complex(float.fromhex(h[0]), float.fromhex(h[1]))
